@@ -25,8 +25,72 @@ def check_case(case, info=None):
 
 
 def replay(case):
+    if case.get('kind') == 'sanitizer':
+        import tempfile, json, os
+        d = tempfile.mkdtemp(prefix='depccg_asan_')
+        try:
+            cf = os.path.join(d, 'case.json')
+            with open(cf, 'w') as f:
+                json.dump(case['case'], f)
+            return _run_sanitizer(0, 0, cf)[0]
+        finally:
+            import shutil
+            shutil.rmtree(d, ignore_errors=True)
     native.setup()
     return check_case(case)
+
+
+def _run_sanitizer(seed, count, casefile):
+    """run the sanitizer worker; returns (fails, cases run, last case)"""
+    import json
+    import os
+    import subprocess
+    import sys
+    from vlib import env
+    asan = subprocess.run(['g++', '-print-file-name=libasan.so'], capture_output=True, text=True).stdout.strip()
+    if not os.path.isabs(asan) or not os.path.exists(asan):
+        return [], 0, None            # no sanitizer runtime in this sandbox: campaign skipped (noted in evidence)
+    e = dict(os.environ, LD_PRELOAD=asan, ASAN_OPTIONS='detect_leaks=0:abort_on_error=0',
+             UBSAN_OPTIONS='halt_on_error=1:print_stacktrace=1', PYTHONPATH=env.VERIF, VERIF_REPO=env.REPO)
+    r = subprocess.run([sys.executable, '-m', 'vlib.asan_worker', str(seed), str(count), casefile], cwd=env.VERIF,
+                       env=e, capture_output=True, text=True, timeout=3000)
+    out = r.stdout.strip().split('\n')[-1] if r.stdout.strip() else ''
+    if r.returncode == 0 and out.startswith('SANITIZER-OK'):
+        return [], int(out.split()[1]), None
+    err = r.stderr
+    kind = 'AddressSanitizer' if 'AddressSanitizer' in err else ('UndefinedBehaviorSanitizer' if 'runtime error:' in err else None)
+    if kind is None:
+        if 'BuildError' in err or 'g++ failed' in err:
+            raise runner.HarnessError('sanitizer build failed:\n' + err[-1500:])
+        kind = f'worker-died-rc{r.returncode}'
+    import re
+    m = re.search(r'(AddressSanitizer: [\w-]+|runtime error: [^\n]{0,80})', err)
+    what = m.group(1) if m else kind
+    last = None
+    try:
+        last = json.load(open(casefile + '.current'))
+    except Exception:
+        pass
+    frames = [ln.strip() for ln in err.split('\n') if 'parsing.h' in ln][:3]
+    return [(f'{PROPERTY}/sanitizer/{what.split(":")[0]}/{what.split(":")[-1].strip().split(" ")[0]}',
+             f'{what}; frames in parsing.h: {frames}')], 0, last
+
+
+def sanitizer_campaign(ctx, shard, count):
+    import os
+    import tempfile
+    import shutil
+    d = tempfile.mkdtemp(prefix='depccg_asan_')
+    try:
+        cf = os.path.join(d, 'case.json')
+        fails, n, last = _run_sanitizer(runner.hseed(ctx, 202), count, cf)
+        ctx.notes['sanitizer_cases'] = ctx.notes.get('sanitizer_cases', 0) + n
+        if n == 0 and not fails:
+            ctx.notes['sanitizer_campaign'] = 'skipped: no libasan in this sandbox'
+        ctx.count(n, cls='sanitizer-build')
+        ctx.report_direct(fails, {'kind': 'sanitizer', 'case': last})
+    finally:
+        shutil.rmtree(d, ignore_errors=True)
 
 
 def build_case(data, mode):
@@ -47,6 +111,8 @@ def _build_case(data, mode):
 
 def _shard(ctx, shard, nshards):
     native.setup()
+    if shard < ctx.scale(2, 16):
+        sanitizer_campaign(ctx, shard, ctx.scale(150, 1500))
     for mode, n_examples, size in (('table', ctx.scale(1000, 6000), 700), ('real', ctx.scale(80, 500), 700)):
         def factory(mode=mode, n_examples=n_examples, size=size):
             @seed(runner.hseed(ctx, 2 if mode == 'table' else 102))
@@ -73,4 +139,5 @@ def run(ctx):
     return RULE, 'exploration', [
         'Cython semantics of parsing.pyx are emulated by the pyxlite translator; out-of-range rule indices and '
         'missing cache keys (undefined behaviour in the real extension) are surfaced as faults',
-        'leaf token compared by equality with the input token']
+        'leaf token compared by equality with the input token',
+        'sanitizer campaign: the same shim compiled with -fsanitize=address,undefined in a child interpreter with libasan preloaded (leak detection off)']
